@@ -192,7 +192,7 @@ def from_residual(eng, st, fr, args, fn, site):
                 from .psi import FnInfo
                 alts = eng.apply_fn(st, fr, ('fn', FnInfo({'path': tb.path, 'resolved': {'path': tb.path}})), [v[3][0]])
                 if alts:
-                    return [(('agg', 'std::result::Result', 'Err', (x,)), c, e) for x, c, e in alts]
+                    return [(('agg', 'std::result::Result', 'Err', (a_[0],)), a_[1], a_[2], a_[3] if len(a_) > 3 else None) for a_ in alts]
         return ('agg', 'std::result::Result', 'Err', (T('conv', v[3][0]),))
     if v[0] == 'agg' and v[2] == 'None':
         return ('agg', 'std::option::Option', 'None', ())
@@ -273,12 +273,13 @@ def hof(family, on, rebuild, structural=False):
                         return None
                     # the callback is not available (std::mem::drop, an external fn): its result is opaque, but which
                     # variant comes out is still determined by the input
-                    alts = [(T('applied', args[1] if args[1][0] != 'fn' else ('sym', 'fn:' + str(args[1][1].get('path'))), pay), [], None)]
-                for v, c2, eff in alts:
-                    out.append((rebuild(var, v), conds + c2, eff))
+                    alts = [(T('applied', args[1] if args[1][0] != 'fn' else ('sym', 'fn:' + str(args[1][1].get('path'))), pay), [], None, None)]
+                for a_ in alts:
+                    v, c2, eff, sto = a_[0], a_[1], a_[2], (a_[3] if len(a_) > 3 else None)
+                    out.append((rebuild(var, v), conds + c2, eff, sto))
             else:
-                out.append((rebuild(var, None, keep=pay), conds, None))
-        if len(out) == 1 and not out[0][1] and (out[0][2] is None or len(out[0][2]) == len(st.effects)):
+                out.append((rebuild(var, None, keep=pay), conds, None, None))
+        if len(out) == 1 and not out[0][1] and (out[0][2] is None or len(out[0][2]) == len(st.effects)) and (len(out[0]) < 4 or out[0][3] is None):
             return out[0][0]
         return out
     return f
@@ -302,6 +303,74 @@ def _rb_unwrap_or_else(on):
     return rb
 
 
+def map_or_else(family, with_default_fn=True):
+    """Option/Result::map_or_else(default_fn, f) and map_or(default, f): both arms produce a plain value"""
+    def f(eng, st, fr, args, fn, site):
+        a = 'Ok' if family == RES else 'Some'
+        out = []
+        for var, pay, conds in _variants(args[0], family):
+            if var == a:
+                alts = eng.apply_fn(st, fr, args[2], [pay])
+            elif with_default_fn:
+                alts = eng.apply_fn(st, fr, args[1], [pay] if family == RES else [])
+            else:
+                alts = [(args[1], [], None)]
+            if alts is None:
+                return None
+            for a_ in alts:
+                out.append((a_[0], conds + a_[1], a_[2], a_[3] if len(a_) > 3 else None))
+        return out
+    return f
+
+
+def opt_zip(eng, st, fr, args, fn, site):
+    out = []
+    for va, pa, ca in _variants(args[0], OPT):
+        for vb, pb, cb in _variants(args[1], OPT):
+            if va == 'Some' and vb == 'Some':
+                out.append((('agg', OPT, 'Some', (('agg', 'tuple', None, (pa, pb)),)), ca + cb))
+            else:
+                out.append((('agg', OPT, 'None', ()), ca + cb))
+    return out if len(out) > 1 else out[0][0]
+
+
+def opt_transpose(eng, st, fr, args, fn, site):
+    """Option<Result<T, E>>::transpose -> Result<Option<T>, E>"""
+    out = []
+    for vo, po, co in _variants(args[0], OPT):
+        if vo == 'None':
+            out.append((('agg', RES, 'Ok', (('agg', OPT, 'None', ()),)), co))
+        else:
+            for vr, pr, cr in _variants(po, RES):
+                if vr == 'Ok':
+                    out.append((('agg', RES, 'Ok', (('agg', OPT, 'Some', (pr,)),)), co + cr))
+                else:
+                    out.append((('agg', RES, 'Err', (pr,)), co + cr))
+    return out if len(out) > 1 else out[0][0]
+
+
+def opt_filter(eng, st, fr, args, fn, site):
+    out = []
+    for var, pay, conds in _variants(args[0], OPT):
+        if var == 'None':
+            out.append((('agg', OPT, 'None', ()), conds, None))
+            continue
+        h = ('H', 300000 + st.next_heap)
+        st.next_heap += 1
+        st.store[(h, ())] = pay
+        alts = eng.apply_fn(st, fr, args[1], [('ref', (h, ()))])
+        if alts is None:
+            return None
+        for a_ in alts:
+            v, c2, eff, sto = a_[0], a_[1], a_[2], (a_[3] if len(a_) > 3 else None)
+            if is_int_const(v):
+                out.append((('agg', OPT, 'Some', (pay,)) if v[1] else ('agg', OPT, 'None', ()), conds + c2, eff, sto))
+            else:
+                out.append((('agg', OPT, 'Some', (pay,)), conds + c2 + [(v, '==', 1)], eff, sto))
+                out.append((('agg', OPT, 'None', ()), conds + c2 + [(v, '==', 0)], eff, sto))
+    return out
+
+
 def bool_then_some(eng, st, fr, args, fn, site):
     b, v = args[0], args[1]
     if is_int_const(b):
@@ -316,8 +385,8 @@ def bool_then(eng, st, fr, args, fn, site):
         alts = eng.apply_fn(st, fr, args[1], [])
         if alts is None:
             return None
-        for v, c2, eff in alts:
-            out.append((('agg', OPT, 'Some', (v,)), ([] if is_int_const(b) else [(b, '==', 1)]) + c2, eff))
+        for a_ in alts:
+            out.append((('agg', OPT, 'Some', (a_[0],)), ([] if is_int_const(b) else [(b, '==', 1)]) + a_[1], a_[2], a_[3] if len(a_) > 3 else None))
     if not (is_int_const(b) and b[1]):
         out.append((('agg', OPT, 'None', ()), [] if is_int_const(b) else [(b, '==', 0)], None))
     return out
@@ -652,6 +721,13 @@ SUMMARIES = {
     'std::option::Option::<T>::replace': opt_replace,
     'std::result::Result::<T, E>::map_err': hof(RES, 'Err', _rb_map_err, structural=True),
     'std::result::Result::<T, E>::map': hof(RES, 'Ok', _rb_map_res, structural=True),
+    'std::option::Option::<T>::map_or_else': map_or_else(OPT),
+    'std::result::Result::<T, E>::map_or_else': map_or_else(RES),
+    'std::option::Option::<T>::map_or': map_or_else(OPT, with_default_fn=False),
+    'std::result::Result::<T, E>::map_or': map_or_else(RES, with_default_fn=False),
+    'std::option::Option::<T>::zip': opt_zip,
+    'std::option::Option::<std::result::Result<T, E>>::transpose': opt_transpose,
+    'std::option::Option::<T>::filter': opt_filter,
     'std::bool::<impl bool>::then_some': bool_then_some,
     'std::bool::<impl bool>::then': bool_then,
     'std::num::<impl usize>::next_multiple_of': next_multiple_of,
